@@ -870,6 +870,11 @@ where
                 "Configuration changed"
             );
 
+            if self.config.max_packet_size != config.max_packet_size {
+                // send_buf is sized after max_packet_size
+                self.send_buf = Vec::with_capacity(config.max_packet_size.get());
+            }
+
             self.config = config;
             Ok(())
         }
